@@ -1,6 +1,7 @@
 from operator import xor
 
 import numpy as np
+from pb_bss import _verif
 from cached_property import cached_property
 from dataclasses import dataclass
 from pb_bss.distribution.mixture_model_utils import (
@@ -178,6 +179,8 @@ class CWMMTrainer:
                 saliency=saliency,
                 weight_constant_axis=weight_constant_axis,
             )
+            if _verif.ENABLED:
+                _verif.step(self, iteration, model, affiliation)
 
         return model
 
